@@ -123,8 +123,17 @@ def grid():
                 # data): exactly one layer is resolved, the value is handed on un-awaited
                 out.append({"adapter": "any_iter", "outer": outer, "container": container, "items": items,
                             "length": length, "steps": steps, "data": "awaitable"})
+    for outer, container, items, length in itertools.product(("plain", "coroutine", "gencoro"), ("list", "genexpr", "aiter"),
+                                                             ("plain", "gencoro", "object"), (1, 2, 4)):
+        for steps in (length, length + 1):
+            out.append({"adapter": "any_iter", "outer": outer, "container": container, "items": items,
+                        "length": length, "steps": steps, "data": "generator"})
+    for outer, container, first, length in itertools.product(("plain", "gencoro"), ("list", "genexpr", "aiter"),
+                                                             ("generator-first", "coroutine-first"), (2, 3, 5)):
+        out.append({"adapter": "any_iter", "outer": outer, "container": container, "items": "mixed-generators",
+                    "length": length, "steps": length + 1, "data": first})
     for items, length in itertools.product(("coroutine", "object", "suspending", "futurelike", "gencoro"), range(0, 7)):
-        for container in ("list", "iter"):
+        for container in ("list", "iter", "dual"):
             for steps in range(0, length + 2):
                 out.append({"adapter": "await_each", "container": container, "items": items, "length": length,
                             "steps": steps})
@@ -135,9 +144,36 @@ def check_grid(case):
     ctx = Ctx("a")
     log = []
     plain = [Item(i % 3, i) if case.get("data") != "awaitable" else AwaitableItem(i) for i in range(case["length"])]
-    wrapped = [wrap(ctx, case["items"], item, log, k) for k, item in enumerate(plain)]
+    if case.get("data") == "generator":
+        # the data are plain generator objects (a batch of lazily computed rows): the same TYPE as a generator-based
+        # coroutine, but not awaitable - they are handed on as they are
+        plain = [(x for x in (i,)) for i in range(case["length"])]
+    if case["items"] == "mixed-generators":
+        # generator objects of both kinds in ONE input: plain generators (data, positions 0, 2, ...) next to
+        # generator-based coroutines (awaitables, positions 1, 3, ...), or the other way round
+        par = 0 if case.get("data") == "generator-first" else 1
+        plain = [(x for x in (i,)) if i % 2 == par else Item(i % 3, i) for i in range(case["length"])]
+        wrapped = [item if k % 2 == par else wrap(ctx, "gencoro", item, log, k) for k, item in enumerate(plain)]
+    else:
+        wrapped = [wrap(ctx, case["items"], item, log, k) for k, item in enumerate(plain)]
     if case["container"] == "list":
         container = list(wrapped)
+    elif case["container"] == "genexpr":
+        container = (w for w in wrapped)
+    elif case["container"] == "dual":
+        # an Iterable[Awaitable] (what await_each is documented to take) that ALSO offers the async protocol, with
+        # another meaning (a task group: iterating gives the pending awaitables, async-iterating the finished results)
+        class Dual:
+            def __iter__(self):
+                return iter(list(wrapped))
+
+            def __aiter__(self):
+                async def results():
+                    for k in reversed(range(len(wrapped))):
+                        yield ("finished", k)
+                return results()
+
+        container = Dual()
     elif case["container"] == "iter":
         container = iter(list(wrapped))
     else:
@@ -162,6 +198,9 @@ def check_grid(case):
                 break
             except AwaitedDataError as exc:
                 got.append(("value-was-awaited", exc.args))
+                break
+            except Exception as exc:  # nothing in these cases fails by itself
+                got.append(("the-adapter-raised", repr(exc)[:80]))
                 break
         await it.aclose()
 
@@ -193,7 +232,8 @@ def check_grid(case):
         for k in range(case["steps"]):
             expected.append(("ask", k))
             if k < case["length"]:
-                expected.append(("await", k))
+                if wrapped[k] is not plain[k]:
+                    expected.append(("await", k))
             else:
                 expected.append(("stop", k))
                 break
@@ -307,7 +347,8 @@ def sync_cases(draw):
         kinds = st.sampled_from(["plain", "raise"])
     elif flavour == "def-mixed":
         kinds = st.sampled_from(["plain", "coroutine", "object", "raise", "suspending", "futurelike",
-                                 "coroutine-raises", "falsy-awaitable", "grumpy-plain", "gencoro"])
+                                 "coroutine-raises", "falsy-awaitable", "grumpy-plain", "gencoro", "plain-generator",
+                                 "plain-generator"])
     else:
         kinds = st.sampled_from(["value", "raise"])
     return {"adapter": "sync", "flavour": flavour, "calls": draw(st.lists(kinds, min_size=1, max_size=4)),
@@ -340,6 +381,9 @@ def check_sync(case):
             return FalsyAw(ctx, values[k])
         if kind == "grumpy-plain":
             values[k] = GrumpyPlain()
+            return values[k]
+        if kind == "plain-generator":
+            values[k] = (x for x in (k,))  # a generator object is a plain result (only generator-based COROUTINES are awaited)
             return values[k]
         if kind == "coroutine-raises":
             # a plain function returning an awaitable whose await fails
